@@ -119,6 +119,33 @@ fn check_typed_positions(i: i64) -> CaseResult {
         }
         Err(_) => ensure!(!ok, "key type {} rejected though registered", i),
     }
+    // the header-typed integers inside protected byte strings: of a message, and of a counter-signature
+    for (label, table, private_ok) in [(1i128, reg::ALGORITHM, true), (3, reg::COAP_CONTENT_FORMAT, false)] {
+        let ok = reg::registered(table, i) || (private_ok && is_private(i));
+        let inner = encode(&Item::Map(vec![(Item::Int(label), n.clone())]));
+        let body = encode(&Item::Array(vec![Item::Bytes(inner.clone()), Item::Map(vec![]), Item::Null, Item::Bytes(vec![])]));
+        let nested = encode(&Item::Array(vec![
+            Item::Bytes(vec![]),
+            Item::Map(vec![(Item::Int(7), Item::Array(vec![Item::Bytes(inner.clone()), Item::Map(vec![]), Item::Bytes(vec![1])]))]),
+            Item::Null,
+            Item::Bytes(vec![]),
+        ]));
+        for (what, b, pick_nested) in [("protected header of a COSE_Sign1", &body, false), ("protected header of a counter-signature", &nested, true)] {
+            match coset::CoseSign1::from_slice(b) {
+                Ok(v) => {
+                    ensure!(ok, "{}: label {} value {} accepted though unregistered", what, label, i);
+                    let h = if pick_nested { &v.unprotected.counter_signatures.first().ok_or("counter-signature missing")?.protected.header } else { &v.protected.header };
+                    let l = if label == 1 {
+                        crate::model::alg_to_l(h.alg.as_ref().ok_or("alg absent")?)?
+                    } else {
+                        crate::model::reg_label_to_l(reg::COAP_CONTENT_FORMAT, h.content_type.as_ref().ok_or("content type absent")?)?
+                    };
+                    ensure!(l == L::Int(i), "{}: label {} value {} decoded as {:?}", what, label, i, l);
+                }
+                Err(e) => ensure!(!ok, "{}: label {} value {} rejected ({:?}) though registered{}", what, label, i, e, if private_ok { " or private" } else { "" }),
+            }
+        }
+    }
     // kty of a key inside a key set (before and after another key), and alg of a nested signer / recipient / counter-signature
     let ok = reg::registered(reg::KEY_TYPE, i) && i != 0;
     for first in [true, false] {
@@ -438,7 +465,7 @@ pub fn property() -> Property {
         title: "Registry names and integers correspond one-to-one with the IANA assignments",
         rule: "for each of the 16 registry enumerations: every integer of a scan window (quick ±2^18, thorough ±2^24) plus the 64-bit extremes through from_i64/to_i64/is_private, \
                the set of (name, integer) found compared for equality with the transcribed IANA table; every integer of [-70000, 70000] through RegisteredLabel / RegisteredLabelWithPrivate decoding \
-               and through the typed positions (header alg, crit, content type; key kty, alg, key_ops; kty inside key sets; alg of nested signers and counter-signatures; claim key); generated: random 64-bit integers, texts (incl. registered names), several related text labels in one claims / header / key map (all kept, in order, and encodable again), styled encodings; \
+               and through the typed positions (header alg, crit, content type; key kty, alg, key_ops; kty inside key sets; alg of nested signers and counter-signatures; alg and content type inside protected byte strings of a message and of a counter-signature; claim key); generated: random 64-bit integers, texts (incl. registered names), several related text labels in one claims / header / key map (all kept, in order, and encodable again), styled encodings; \
                non-trivial = integer assigned, adjacent to an assigned one, or within 2 of -65536; distinct by (registry, integer)",
         assumptions: &["the IANA tables in harness/src/registry.rs are a hand transcription of the registries the crate cites at its snapshot dates (trusted base; no network to re-fetch)"],
         exhaustive_domains: &[
